@@ -12,6 +12,14 @@ CHECKS = {
             "TLC checks on the OFXTypes module that the reading rule denotes the same instant as an independent day count on a calendar/notation/offset grid, that single-field corruptions are rejected and that written texts read back within 0.5 ms; the grid cases and thousands of seeded random texts/instants are executed on the real DateTime/Time converters and every recorded call is re-computed by TLC (Trace_Types).",
             "Trusted: TLC, the transcription of the OFX date-time notation into OFXTypes.tla, the projection of datetime values to (day, ms). Seconds=60, offsets outside -12:00..+14:00 and padded offsets are left unjudged.",
             "DESIGN.md section 6 C09"),
+    "C10": ("TLA+ OFXTypes converters: TLC theorems (inverse, canonical, None, wrong type, limits) on a parameter grid + grid replay + trace validation of real convert/unconvert calls",
+            "TLC checks on OFXTypes that Conv/Unconv are mutually inverse, canonical and strict at limits for every parameterisation of the grid; every grid case and seeded random parameterisations (length 1..12, scale 0..8, enumerations, required or not, ListElement wrapper, wrong-typed values) are executed on the real Element classes and each call is re-computed by TLC (Trace_Types).",
+            "Trusted: TLC, the transcription of OFX 3.2.8 into OFXTypes.tla, the value projection. Unjudged on read: exponent/NaN/Infinity texts, white space, '_' and non-ASCII digits. One known finding (entity-like string values at type level).",
+            "DESIGN.md section 6 C10"),
+    "C20": ("TLA+ SecIds check-digit algorithms: TLC algebra on exhaustive two-position domains + trace validation of the real utils functions",
+            "TLC proves on the SecIds module, over all (position, character) pairs, that completed identifiers validate, any other check character fails, wrong lengths/prefixes fail, single-digit errors are detected and converted ISINs validate; the real cusip/sedol/isin functions are run on the emitted grid, on random bases, on all check-character replacements and agency prefixes (thorough: all 10^6 digits-only SEDOL bases) and TLC recomputes every result.",
+            "Trusted: TLC, the transcription of the published CUSIP/SEDOL/ISIN algorithms, lib.NUMBERING_AGENCIES as exported. python -O (asserts off) is out of scope.",
+            "DESIGN.md section 6 C20"),
 }
 
 PENDING = {}
